@@ -34,7 +34,7 @@ ASSUMPTIONS = [
 ]
 TOLERANCES = {"feasibility": "8 ulp", "flag": "||P(x-g)-x|| < tol*(1+1e-6)+1e-13 (reference gradient and clamp)",
               "box-QP minimiser": "10*tol*(1+lambda_max)/lambda_min",
-              "project": "exact clamp", "project_onto_tr": "||p-xk|| <= Delta*(1+1e-7), p in box exactly"}
+              "project": "exact clamp", "project_onto_tr": "||p-xk|| <= Delta*(1+1e-7) + 2*(2e-12+4eps)*||x-xk|| (brentq default xtol/rtol on the ray parameter), p in box exactly"}
 
 HORIZON_S = 60.0
 TYPES = ["free", "lo", "up", "two", "fix"]
@@ -88,7 +88,8 @@ def groups(tier, seed):
     for s in range(2):
         gs.append({"name": "rosenbrock-%d" % s, "fam": "rosenbrock", "n": 2, "part": "B", "shard": s, "nshards": 2})
     gs.append({"name": "cos1d", "fam": "cos1d", "n": 1, "part": "B", "shard": 0, "nshards": 1})
-    gs.append({"name": "projections", "fam": "proj", "n": 0})
+    for k in range(12):
+        gs.append({"name": "projections-%02d" % k, "fam": "proj", "n": 0, "shard": k, "nshards": 12})
     return gs
 
 
@@ -240,6 +241,11 @@ def run_group(g, tier, seed, rec):
                 cid = "fam=%s;n=%d;basis=%s;%s;start=%s;%s" % (famlab, n, g.get("basis", "-"), bl, sl, cfgid)
                 if not rec.want(cid):
                     continue
+                if cval["entry"] == "solve-warm" and fam == "quartic":
+                    w = onp.linalg.eigvalsh(R.q_hess(onp.asarray(x0, dtype=float), d))
+                    if w[0] <= 1e-10 * max(1.0, w[-1]):
+                        rec.branch("skipped:warm-start-needs-positive-definite-hessian")
+                        continue
                 settings = SPG.get_settings(max_trust_iters=cval["maxtr"], tol=cval["tol"],
                                             max_spg_iters=cval["maxspg"], tr_size=cval["tr"],
                                             min_tr_size=cval["mintr"], spg_use_nonmonotone=cval["nonmono"],
@@ -315,10 +321,15 @@ def run_group(g, tier, seed, rec):
                 # feasibility of every reported iterate and of the return
                 pts = list(iterates) + [xr]
                 prev = onp.asarray(x0, dtype=float)
+                # iterates are x0 + sum(alpha*s): their rounding error scales with the largest magnitude met along the
+                # whole trajectory, not with the final value
+                finite_pts = [p_ for p_ in pts if onp.all(onp.isfinite(p_))]
+                traj = max([float(onp.max(onp.abs(x0)))] + [float(onp.max(onp.abs(p_))) for p_ in finite_pts]
+                           + [float(onp.linalg.norm(p_ - onp.asarray(x0))) for p_ in finite_pts])
                 for j, pt in enumerate(pts):
                     if not known_start and nsub[0] == 0:
                         break           # warm-started start reported as is: premise "feasible start" not under our control
-                    step = float(onp.linalg.norm(pt - prev)) if onp.all(onp.isfinite(pt)) else 0.0
+                    step = traj
                     dlt = 8 * onp.spacing(onp.maximum(onp.maximum(onp.abs(pt), step),
                                                       onp.maximum(onp.where(onp.isfinite(lb), onp.abs(lb), 0),
                                                                   onp.where(onp.isfinite(ub), onp.abs(ub), 0))))
@@ -367,7 +378,8 @@ def run_group(g, tier, seed, rec):
                     pg = onp.clip(xr - gr, lb, ub) - xr
                     on = float(onp.linalg.norm(pg))
                     rec.track_max("optimality_over_tol_at_success", on / cval["tol"])
-                    if not on < cval["tol"] * (1 + 1e-6) + 1e-13:
+                    allow = R.grad_allowance(fam, xr, d)
+                    if not on < cval["tol"] * (1 + 1e-6) + 1e-13 + allow:
                         sigs.append(("success-with-large-projected-gradient", {"optimality": on, "tol": cval["tol"]}))
                     if fam == "quartic" and g["spec"] in ("spd1", "spd100", "badscale"):
                         xs = _box_qp(d["A"], d["b"], lb, ub)
@@ -395,8 +407,12 @@ def _run_projections(g, tier, seed, rec):
     boxes1d = [(-onp.inf, onp.inf), (0.0, onp.inf), (-onp.inf, 0.25), (-0.5, 1.0), (0.25, 0.25), (0.0, 3.0)]
     radii = [1e-6, 1e-3, 0.1, 1.0, 10.0, 1e3, 1e6] if tier == "quick" else [10.0 ** e for e in range(-6, 7)]
     probe = [-2.5, -1.0, -0.5, 0.0, 0.1, 0.25, 0.6, 1.0, 2.0, 3.0, 5.0]
+    bi = -1
     for n in (1, 2):
         for box in itertools.product(range(len(boxes1d)), repeat=n):
+            bi += 1
+            if bi % g["nshards"] != g["shard"]:
+                continue
             lb = onp.array([boxes1d[i][0] for i in box])
             ub = onp.array([boxes1d[i][1] for i in box])
             bnds = jnp.array(onp.column_stack((lb, ub)))
@@ -421,8 +437,6 @@ def _run_projections(g, tier, seed, rec):
                         if not rec.want(cid2):
                             continue
                         dist = float(onp.linalg.norm(onp.clip(x, lb, ub) - xk))
-                        if dist / r > 1e3 * 1e6:
-                            continue
                         try:
                             p = onp.array(SPG.project_onto_tr(jnp.array(x), jnp.array(xk), bnds, r))
                         except Exception as e:  # noqa
@@ -436,7 +450,8 @@ def _run_projections(g, tier, seed, rec):
                         sig = None
                         if not inbox:
                             sig = "outside-box"
-                        elif not nr <= r * (1 + 1e-7):
+                        elif not nr <= r * (1 + 1e-7) + 2 * (2e-12 + 4 * 2.3e-16) * float(onp.linalg.norm(x - xk)):
+                            # brentq is called with its defaults xtol=2e-12, rtol=4eps on the ray parameter t in [0,1]
                             sig = "outside-trust-region"
                         elif dist <= r and not onp.array_equal(p, onp.clip(x, lb, ub)):
                             sig = "inside-case-not-the-projection"
